@@ -96,10 +96,16 @@ class Armorable(metaclass=abc.ABCMeta):
     @staticmethod
     def is_armor_framed(text):
         # does the input START with an armor header line? (binary OpenPGP data never does: the first octet of a packet has bit 7 set)
+        # input whose first octet cannot be a packet tag is text, in which the armor header line may also follow other text
         if isinstance(text, (bytes, bytearray)):
-            return bytes(text).lstrip().startswith(b'-----BEGIN PGP ')
+            text = bytes(text).lstrip()
+            return text.startswith(b'-----BEGIN PGP ') or (text[:1] < b'\x80' and re.search(br'^-----BEGIN PGP ', text, flags=re.MULTILINE) is not None)
 
-        return isinstance(text, str) and text.lstrip().startswith('-----BEGIN PGP ')
+        if not isinstance(text, str):
+            return False
+
+        text = text.lstrip()
+        return text.startswith('-----BEGIN PGP ') or (text[:1] < '\x80' and re.search(r'^-----BEGIN PGP ', text, flags=re.MULTILINE) is not None)
 
     @staticmethod
     def is_armor(text):
